@@ -61,6 +61,9 @@ IMPORTS = {
         ('C14', ['C14.a', 'C14.c', 'C14.d', 'C14.h', 'C14.j'],
          'multipart parameters are part of the reported transaction: the CR / boundary bytes set aside at the end of a chunk are replayed or '
          'dropped exactly once, otherwise the parts depend on where the body was cut (c03-5, c03-10)'),
+        ('C01', ['C01.r'],
+         'what a parser carries from one chunk to the next are positions and lengths: kept at full width they mean the same byte whatever the '
+         'size of the chunk (c14-17: a 16-bit candidate position loses a 70000-byte value when the boundary is cut by a chunk end)'),
         ('C15', ['C15.b', 'C15.d'],
          'urlencoded parameters likewise: the end of a chunk stores the piece and emits nothing; 0xFF is not taken for the end-of-chunk sentinel'),
         ('C07', ['C07.m', 'C07.f'],
@@ -90,6 +93,9 @@ IMPORTS = {
         ('C04', ['C04.b', 'C04.c'],
          'at most once: the response cursor moves on every path that starts a response; a cursor left behind binds the next response to a '
          'transaction that is already complete and all its response callbacks are delivered again (c05-2, c05-3, c05-7, c05-8, c05-9)'),
+        ('C16', ['C16.i'],
+         'the progress indicators never move backwards and completion is reported once: each direction\'s progress field is written by that '
+         'direction only (c05-17: the response side marks a half-read request COMPLETE)'),
         ('C19', ['C19.e'],
          'on a copied configuration every event\'s hook holds that event\'s callbacks: a copy built from the neighbouring hook delivers a '
          'completion callback twice or a headers callback after body data (c05-5, c05-6)'),
@@ -116,6 +122,9 @@ IMPORTS = {
         ('C07', ['C07.e'],
          'the Content-Encoding token loop is bounded by loop-carried layer counters; without the bound one header line costs work proportional '
          'to tokens x separators (c08-2, c08-4, c08-10)'),
+        ('C04', ['C04.b', 'C04.c'],
+         'the response side finds its transaction by one indexed lookup at the response cursor; any fall-back that searches the list makes an '
+         'unmatched response cost time proportional to the number of transactions (c08-16)'),
         ('C10', ['C10.d', 'C10.f'],
          'destroying a transaction scans the transaction list from the front: the max_tx cap and the recycling call are what bound that scan '
          '(c08-5, c08-7, c08-11)'),
@@ -139,10 +148,18 @@ IMPORTS = {
         ('C13', ['C13.b'],
          'a request target whose port is outside 1..65535 is a syntactically invalid host: the port predicates mark everything else invalid, '
          'which is what raises the invalid-host indicator for the target (c11-14)'),
+        ('C17', ['C17.c'],
+         '"regardless of letter case": a repeated Content-Length or Transfer-Encoding is found by a lookup that folds case on every byte of '
+         'the name (c11-15: a case-sensitive first-byte pre-test stores "content-length" next to "Content-Length", unflagged)'),
         ('C12', ['C12.e'], 'the request-target host is decoded with the transaction\'s own decoder configuration before it is compared with Host (c11-8)'),
     ],
     'C13': [
         ('C17', ['C17.b'], 'the numeric port is the decimal value of the whole port text: the integer parser accepts only at the end of the text, without wrapping (c13-5)'),
+    ],
+    'C14': [
+        ('C01', ['C01.r'],
+         'part data is reproduced byte for byte for every chunking: the positions the boundary matcher keeps across calls are not narrowed '
+         '(c14-17)'),
     ],
     'C15': [
         ('C12', ['C12.e', 'C12.f', 'C12.h'],
